@@ -74,11 +74,11 @@ def rule_a(R, ctx):
     R.floor("C08.a", "versioned functions checked for purity", n, 20)
 
 
-def rule_b(R, ctx):
+def rule_b(R, ctx, rid="C08.b"):
     Y = ctx.yrs
     fn = Y.fn("yrs::update::Update::merge_updates")
     v = FnView(fn)
-    R.rule("C08.b", "R-PAIR delete-set union: in Update::merge_updates the delete set of *every* input is merged into the result "
+    R.rule(rid, "R-PAIR delete-set union: in Update::merge_updates the delete set of *every* input is merged into the result "
                     "(result.delete_set.merge_with(update.delete_set) sits in the closure mapped directly over the input iterator, "
                     "before the filter that drops block-less inputs)")
     maps = fn.calls_to("re:Iterator>::map$", "re:::map$")
@@ -110,7 +110,7 @@ def rule_b(R, ctx):
         direct = any(t[0] == "param" and t[1] == 1 for t in walk(recv)) and not bad_adaptors
         found = direct
         why = "map(|update| {result.delete_set.merge_with(update.delete_set); ..}) over %s ; adaptors before it: %s" % (show(r, 4), bad_adaptors)
-    R.ob("C08.b", fn, "ds-union", found, why)
+    R.ob(rid, fn, "ds-union", found, why)
     # the result returned is the accumulator that received the delete sets
     ret = v.terms.local(0, 6)
     R.touch(fn)
@@ -177,10 +177,10 @@ def natural_loop(fn, tail, head):
     return body
 
 
-def rule_e(R, ctx):
+def rule_e(R, ctx, rid="C08.e"):
     from ylib.formula import Formulas, truth_check, fshow, atoms_of
     Y = ctx.yrs
-    R.rule("C08.e", "R-ORDER/R-GUARD sort before gap: Update::merge_updates picks the head of the decoders sorted at the top of each "
+    R.rule(rid, "R-ORDER/R-GUARD sort before gap: Update::merge_updates picks the head of the decoders sorted at the top of each "
                     "round; a Skip for a gap in a client's clocks may only be synthesised for that head. Once the round has advanced "
                     "the head decoder past blocks already written (move_next inside the round, before the gap decision), another "
                     "input may hold the blocks that fill the gap: the creation of a Skip must then be unreachable in that round "
@@ -188,10 +188,10 @@ def rule_e(R, ctx):
     fn = Y.fn("yrs::update::Update::merge_updates")
     cfg = fn.cfg()
     sorts = [cs for cs in fn.calls() if re.search(r"::sort(_unstable)?(_by(_key)?)?$", F.strip_generics(cs.name))]
-    R.floor("C08.e", "sort of the decoders in merge_updates", len(sorts), 1)
+    R.floor(rid, "sort of the decoders in merge_updates", len(sorts), 1)
     skips = sorted({i for i, j, st in fn.stmts() if "agg" in st["rv"] and st["rv"]["agg"].get("variant") == "Skip"
                     and str(st["rv"]["agg"].get("adt", "")).endswith("block::Block")})
-    R.floor("C08.e", "Skip constructions in merge_updates", len(skips), 1)
+    R.floor(rid, "Skip constructions in merge_updates", len(skips), 1)
     if not sorts or not skips:
         return
     H = sorts[0].bb
@@ -199,7 +199,7 @@ def rule_e(R, ctx):
     fm.expand = False
     back = fm.back_edges()
     moves = [cs for cs in fn.calls_to("yrs::update::Memo::move_next")]
-    R.floor("C08.e", "move_next calls in merge_updates", len(moves), 4)
+    R.floor(rid, "move_next calls in merge_updates", len(moves), 4)
     n = 0
     for S in skips:
         for cs, site in ordinal_sites(moves):
@@ -232,7 +232,7 @@ def rule_e(R, ctx):
             ats = atoms_of(f)
             flag_keys = {k for k, t in ats.items() if isinstance(t, tuple) and t and t[0] == "flag" and t[1] in flags}
             if not flag_keys:
-                R.ob("C08.e", fn, "gap-after:" + site, False,
+                R.ob(rid, fn, "gap-after:" + site, False,
                      "the Skip construction (bb%d) is reachable from this advance of the head decoder without re-sorting, and its path "
                      "condition does not depend on any record of the advance (flags set with it: %s): a gap that another input fills is "
                      "written as Skip and that input's blocks are then dropped as already written" % (S, sorted(fn.local_name(x) or x for x in flags)),
@@ -245,10 +245,10 @@ def rule_e(R, ctx):
                 return cmp_name(t)
 
             ok, cex, keys = truth_check(f, classify, lambda named: False if named.get("ADV") else None, max_atoms=16)
-            R.ob("C08.e", fn, "gap-after:" + site, ok,
+            R.ob(rid, fn, "gap-after:" + site, ok,
                  "Skip construction is unreachable in a round that advanced the head decoder (%d atoms)" % len(keys) if ok else
                  "Skip construction reachable although the head decoder was advanced in this round: %s" % (cex,), cs.loc())
-    R.floor("C08.e", "advance sites that reach the gap decision without a sort", n, 1)
+    R.floor(rid, "advance sites that reach the gap decision without a sort", n, 1)
 
 
 def check(ctx, R):
